@@ -6,6 +6,9 @@
    - cqm_to_bqm: integer -> bits substitution (_qm_to_bqm) and CQMToBQMInverter *)
 From Coq Require Import List ZArith QArith Qcanon Bool Arith.
 From Dimod Require Import Base.Util Model.Poly Model.Comb.
+(* every coefficient of the expansions and every rule of the slack construction below comes from the
+   source through translators/penalty_formulas.py *)
+From Dimod Require Export Gen.Gen_Penalty.
 Import ListNotations.
 Open Scope Qc_scope.
 
@@ -20,12 +23,12 @@ Definition cvt (vt : vartype) : label -> vartype := fun _ => vt.
 
 Definition eq_lin_step (vt : vartype) (lam c : Qc) (p : poly) (t : lterm) : poly :=
   match vt with
-  | SPIN => add_offset (lam * snd t * snd t) (add_linear (fst t) (lam * snd t * two * c) p)
-  | _ => add_linear (fst t) (lam * snd t * (two * c + snd t)) p
+  | SPIN => add_offset (gen_cy_off_spin lam (snd t)) (add_linear (fst t) (gen_cy_lin_spin lam c (snd t)) p)
+  | _ => add_linear (fst t) (gen_cy_lin_binary lam c (snd t)) p
   end.
 
 Definition eq_quad_row (vt : vartype) (lam : Qc) (t : lterm) (r : list lterm) (p : poly) : poly :=
-  fold_left (fun acc u => add_quadratic (cvt vt) (fst t) (fst u) (two * lam * snd t * snd u) acc) r p.
+  fold_left (fun acc u => add_quadratic (cvt vt) (fst t) (fst u) (gen_cy_quad lam (snd t) (snd u)) acc) r p.
 
 Fixpoint eq_quad_part (vt : vartype) (lam : Qc) (terms : list lterm) (p : poly) : poly :=
   match terms with
@@ -34,7 +37,7 @@ Fixpoint eq_quad_part (vt : vartype) (lam : Qc) (terms : list lterm) (p : poly) 
   end.
 
 Definition add_eq_cy (vt : vartype) (terms : list lterm) (lam c : Qc) (p : poly) : poly :=
-  eq_quad_part vt lam terms (fold_left (eq_lin_step vt lam c) terms (add_offset (lam * c * c) p)).
+  eq_quad_part vt lam terms (fold_left (eq_lin_step vt lam c) terms (add_offset (gen_cy_offset lam c) p)).
 
 (* ------------------------------------------------------------------ *)
 (* python fallback (repaired, c3cb487): itertools.combinations_with_replacement(enumerate(terms), 2);
@@ -43,17 +46,18 @@ Definition add_eq_cy (vt : vartype) (terms : list lterm) (lam c : Qc) (p : poly)
 
 Definition py_diag (vt : vartype) (lam c : Qc) (t : lterm) (p : poly) : poly :=
   match vt with
-  | SPIN => add_offset (lam * snd t * snd t) (add_linear (fst t) (two * lam * snd t * c) p)
-  | _ => add_linear (fst t) (lam * snd t * (two * c + snd t)) p
+  | SPIN => add_offset (gen_py_diag_spin_off lam c (snd t) (snd t))
+                       (add_linear (fst t) (gen_py_diag_spin_lin lam c (snd t) (snd t)) p)
+  | _ => add_linear (fst t) (gen_py_diag_binary_lin lam c (snd t) (snd t)) p
   end.
 
 Definition py_pair_step (vt : vartype) (lam : Qc) (t u : lterm) (p : poly) : poly :=
   if (fst t =? fst u)%nat then
     match vt with
-    | SPIN => add_offset (two * lam * snd t * snd u) p
-    | _ => add_linear (fst t) (two * lam * snd t * snd u) p
+    | SPIN => add_offset (gen_py_same_spin_off lam (snd t) (snd u)) p
+    | _ => add_linear (fst t) (gen_py_same_binary_lin lam (snd t) (snd u)) p
     end
-  else add_quadratic (cvt vt) (fst t) (fst u) (two * lam * snd t * snd u) p.
+  else add_quadratic (cvt vt) (fst t) (fst u) (gen_py_quad lam (snd t) (snd u)) p.
 
 (* pairs (i, i), (i, i+1), ..., (i, n-1) *)
 Definition py_row (vt : vartype) (lam c : Qc) (t : lterm) (r : list lterm) (p : poly) : poly :=
@@ -66,7 +70,7 @@ Fixpoint py_pairs (vt : vartype) (lam c : Qc) (terms : list lterm) (p : poly) : 
   end.
 
 Definition add_eq_py (vt : vartype) (terms : list lterm) (lam c : Qc) (p : poly) : poly :=
-  add_offset (lam * c * c) (py_pairs vt lam c terms p).
+  add_offset (gen_py_offset lam c) (py_pairs vt lam c terms p).
 
 (* ------------------------------------------------------------------ *)
 (* DQM: labels are global case indices, grp maps a case to its variable.
@@ -86,17 +90,17 @@ Definition merge_terms (terms : list lterm) : list lterm :=
 
 Definition dqm_row (grp : label -> nat) (lam : Qc) (t : lterm) (r : list lterm) (p : poly) : poly :=
   fold_left (fun acc u => if (grp (fst t) =? grp (fst u))%nat then acc
-                          else add_quadratic (cvt BINARY) (fst t) (fst u) (two * lam * snd t * snd u) acc) r p.
+                          else add_quadratic (cvt BINARY) (fst t) (fst u) (gen_dqm_quad lam (snd t) (snd u)) acc) r p.
 
 Fixpoint dqm_terms (grp : label -> nat) (lam c : Qc) (terms : list lterm) (p : poly) : poly :=
   match terms with
   | [] => p
   | t :: r => dqm_terms grp lam c r
-                (dqm_row grp lam t r (add_linear (fst t) (lam * snd t * (two * c + snd t)) p))
+                (dqm_row grp lam t r (add_linear (fst t) (gen_dqm_lin lam c (snd t)) p))
   end.
 
 Definition add_eq_dqm (grp : label -> nat) (terms : list lterm) (lam c : Qc) (p : poly) : poly :=
-  dqm_terms grp lam c (merge_terms terms) (add_offset (lam * c * c) p).
+  dqm_terms grp lam c (merge_terms terms) (add_offset (gen_dqm_offset lam c) p).
 
 (* a DQM sample seen at case level: 0/1 on every case, at most one case of a variable set *)
 Definition onehot_sample (grp : label -> nat) (s : sample) : Prop :=
@@ -262,12 +266,33 @@ Definition plan_inequality_cz (cross_zero : bool) (a : list Z) (const lb ub : Z)
   | p => p
   end.
 
+(* the whole decision written with the generated rules only: bounds, always-feasible test, refusal,
+   equality shortcut, slack coefficients [2 ** j for j in range(num_slack)] + guarded remainder,
+   cross_zero bit.  Proved equal to plan_inequality_cz (Proofs/PenaltyGen.v) *)
+Definition slack_coeffs_g (U : Z) : list Z :=
+  let k := gen_num_slack U in
+  map (fun j => gen_pow_coeff (Z.of_nat j)) (seq 0 (Z.to_nat k))
+  ++ (if gen_rest_guard U k then [gen_rest_coeff U k] else []).
+
+Definition plan_inequality_g (cross_zero : bool) (a : list Z) (const lb ub : Z) : ineq_plan :=
+  let tu := sum_pos a in
+  let tl := sum_neg a in
+  let ubc := gen_ubc tu ub const in
+  let lbc := gen_lbc tl lb const in
+  if gen_always_feasible tu tl ubc lbc then Skip
+  else if gen_infeasible ubc lbc then Infeasible
+  else let U := gen_slack_ub ubc lbc in
+       if gen_is_equality U then Equality (- gen_eq_constant ubc)
+       else Slack (- gen_slack_constant ubc)
+                  (slack_coeffs_g U
+                   ++ (if cross_zero && gen_cz_outer lbc ubc && gen_cz_inner ubc U then [gen_cz_coeff ubc U] else [])).
+
 (* penalization_method='unbalanced' with lagrange_multiplier = (lam0, lam1), after the same
    skip / refuse tests:  add_linear(v, lam0*bias) per term; offset += -ub_c (NOT lam0*ub_c);
    add_linear_equality_constraint(terms, lam1, -ub_c) *)
 Definition add_unbalanced (py : bool) (vt : vartype) (terms : list lterm) (lam0 lam1 ubc : Qc) (p : poly) : poly :=
-  (if py then add_eq_py else add_eq_cy) vt terms lam1 (- ubc)
-    (add_offset (- ubc) (fold_left (fun acc t => add_linear (fst t) (lam0 * snd t) acc) terms p)).
+  (if py then add_eq_py else add_eq_cy) vt terms (gen_unb_mult lam0 lam1) (gen_unb_constant ubc)
+    (add_offset (gen_unb_offset ubc) (fold_left (fun acc t => add_linear (fst t) (gen_unb_lin lam0 (snd t)) acc) terms p)).
 
 (* ------------------------------------------------------------------ *)
 (* DQM samples: a sample selects one case per variable; a term (variable, case, bias) counts iff selected *)
@@ -276,3 +301,25 @@ Definition dqm_bits (terms : list dterm) (sel : nat -> nat) : list bool :=
   map (fun t => (sel (fst (fst t)) =? snd (fst t))%nat) terms.
 Definition dqm_sum (terms : list dterm) (sel : nat -> nat) : Z :=
   dot (map snd terms) (dqm_bits terms sel).
+
+(* ------------------------------------------------------------------ *)
+(* DQM.add_linear_inequality_constraint(cross_zero=True): zero_constraint = lb_c > 0 or ub_c < 0;
+   log2: one more two-case variable whose case 1 is worth ub_c; log10: the LAST digit variable gets one
+   more case worth ub_c; linear: the single slack variable gets one more case worth ub_c *)
+Definition dqm_cz_active (cross_zero : bool) (lbc ubc : Z) : bool :=
+  cross_zero && ((0 <? lbc) || (ubc <? 0))%Z.
+
+Definition add_case_to_last (vars : list (list Z)) (v : Z) : list (list Z) :=
+  match rev vars with
+  | last :: r => rev r ++ [last ++ [v]]
+  | [] => []
+  end.
+
+Definition dqm_slack_values_cz (m : slack_method) (U ubc : Z) (zero : bool) : list (list Z) :=
+  if zero then
+    match m with
+    | Log2 => dqm_log2_values U ++ [[0; ubc]%Z]
+    | Log10 => add_case_to_last (dqm_log10_values U) ubc
+    | Linear => add_case_to_last (dqm_linear_values U) ubc
+    end
+  else dqm_slack_values m U.
